@@ -374,11 +374,30 @@ def vbDecodes (infos : List MsgInfo) (msg : String) : Bool :=
   | some i => i.hasValidateBasic && i.decodesAuthority
   | none => false
 
-/-- the routed pipeline for one message: ValidateBasic's authority check (when the message has one), then the handler -/
+/-- where a routed message ends -/
+inductive Stage where | authorityFormat | payload | handler
+  deriving DecidableEq, Repr
+
+/-- the routed pipeline for one message: ValidateBasic's authority check (when the message has one; it is the first
+statement), the rest of ValidateBasic (`payloadOk`), then the handler -/
+def routedStage {σ : Type} (P : Program) (infos : List MsgInfo) (env : Env) (auth : Str) (W : World σ)
+    (payloadOk : Bool) (T m msg : String) (s : σ) : Stage × (Res × σ) :=
+  if vbDecodes infos msg && (accAddress env.cfg auth).isNone then (.authorityFormat, (.err, s))
+  else if !payloadOk then (.payload, (.err, s))
+  else (.handler, exec P env auth W 4 T m s)
+
 def routed {σ : Type} (P : Program) (infos : List MsgInfo) (env : Env) (auth : Str) (W : World σ)
     (payloadOk : Bool) (T m msg : String) (s : σ) : Res × σ :=
-  if vbDecodes infos msg && (accAddress env.cfg auth).isNone then (.err, s)
-  else if !payloadOk then (.err, s)
-  else exec P env auth W 4 T m s
+  (routedStage P infos env auth W payloadOk T m msg s).2
+
+/-- the registration and method serving a message type: (registered concrete type, method) -/
+def routeOf (svcs : List Service) (regs : List Registration) (msg : String) : Option (String × String) :=
+  svcs.findSome? fun sv =>
+    match sv.methods.find? (fun mm => mm.2 == msg) with
+    | none => none
+    | some mm =>
+      match regs.find? (fun r => r.service == sv.pkg) with
+      | some r => some (r.impl, mm.1)
+      | none => none
 
 end FxVerif.Model.C16
